@@ -27,7 +27,11 @@ class C11Disk(Scenario):
     def gen_config(self, rng):
         est, rate = common.draw_geometry(rng, est_choices=(1, 2, 3, 5, 8, 13, 40, 200), max_bits=4000)
         tier = os.environ.get("DSIM_TIER", "quick")
-        return {
+        big = rng.chance(1, 250)
+        if big:
+            # a bit array of more than 64 KiB (and more than 128 KiB): whatever the file is written with in blocks
+            est, rate = rng.choice(((60000, 0.01), (56000, 0.01), (120000, 0.01)))
+        cfg = {
             "est": est, "rate": rate,
             "hash": rng.weighted([(3, "fnv"), (1, "md5"), (1, "sha256"), (1, "dec_bytes"), (1, "dec_int"), (2, "sim"),
                                   (2, "sim_sq")]),
@@ -43,6 +47,9 @@ class C11Disk(Scenario):
             # the path at which the filter is created may already hold an (older, longer) file
             "stale_create": rng.chance(1, 3),
         }
+        if big:
+            cfg.update({"big": True, "steps": rng.between(3, 6), "instr": False, "real_kill_every": 10**6})
+        return cfg
 
     def gen_step(self, rng):
         cfg = self.cfg
@@ -80,7 +87,7 @@ class C11Disk(Scenario):
             if rng.chance(1, 4):
                 return {"op": "export_hardlink", "dir": rng.choice(seams.Scratch.DIRS)}
             return {"op": "export_self", "style": rng.choice(("abs", "rel", "path", "relpath", "dirlink", "home", "dirlinkpath"))}
-        if r < 93:
+        if r < 94:
             return {"op": "clear"} if rng.chance(1, 2) else {"op": "setcount", "v": rng.choice((0, 3, 1000))}
         if r < 96:
             # a second on-disk filter with the SAME file name in another directory, always spelled relative to its
